@@ -33,6 +33,9 @@ Line-protocol driver for the C13 models (calendar, interval calculators, query p
                                         groups sorted by family, rows sorted) | none
   rollup <src> <tgt> <srcFamilyTime> <slot> -> <targetFTime> <ratio> <baseSlot> <ts> <slot(ts)> | panic
   goc <c> | t1 t2 ... | i1 i2 ...   -> T <obj per writer> R <registered obj per writer> opened <n>
+  gdfz <zone> <c> qs qe | t1 t2 ..     -> the range lookup with time.Local = the zone (family starts, sorted) | none
+  goce <c> | t1 .. | i1 e i2 .. | p1 ..  -> writers + Shard.EvictSegment() (`e`) in the schedule, families of
+                                       p1.. on disk: T <obj|-> R <registered obj|-> E <error flags> opened <n>
                                        (writers Shard.GetOrCrateDataFamily(t1), (t2), .. on fresh segments; the
                                         schedule i1 i2 .. lets writer i run one atomic step; then all run to the
                                         end in index order; objects numbered by first appearance; in the shapes the
@@ -50,6 +53,7 @@ import LinVerif.Util.Proto
 import LinVerif.Model.Interval
 import LinVerif.Model.IntervalZone
 import LinVerif.Model.GetOrCreate
+import LinVerif.Model.C13Evict
 import LinVerif.Generated.C13
 
 namespace LinVerif.Driver.C13
@@ -96,6 +100,10 @@ def showGroups (gs : List (Int × List Int)) : String :=
   " ".intercalate (gs.map fun (f, rows) => s!"{f}:" ++ ",".intercalate ((sortInts rows).map toString))
 
 def ints (ws : List String) : Option (List Int) := ws.mapM String.toInt?
+
+/-- schedule token of `goce`: a writer index or `e` (one `Shard.EvictSegment()`) -/
+def parseEStep (w : String) : Option EStep :=
+  if w = "e" then some .evict else w.toNat?.map .w
 
 def step (st : Unit) (ws : List String) : Unit × String :=
   let out : String :=
@@ -259,6 +267,18 @@ def step (st : Unit) (ws : List String) : Unit × String :=
           | none => "unknown-variant"
         | _, _, _, _ => "bad-op"
       | _ => "bad-op"
+    | "gdfz" :: rest =>
+      match splitBar rest with
+      | [[z, c, qs, qe], ts] =>
+        match parseZone z, parseCalc c, qs.toInt?, qe.toInt?, ints ts with
+        | some z, some c, some qs, some qe, some ts =>
+          match lookupVariant with
+          | some .ownSegment =>
+            let r := (sortInts (getDataFamiliesZ z c ⟨qs, qe⟩ ts)).eraseDups
+            if r.isEmpty then "none" else Proto.joinInt r
+          | _ => "unknown-variant"
+        | _, _, _, _, _ => "bad-op"
+      | _ => "bad-op"
     | "batch" :: c :: rest =>
       match parseCalc c, ints rest with
       | some c, some ts => showGroups (groupFamilies c ts)
@@ -285,6 +305,21 @@ def step (st : Unit) (ws : List String) : Unit × String :=
             s!"T {" ".intercalate (can.take n)} R {" ".intercalate (can.drop n)} opened {s.opened}"
           | none => "unknown-variant"
         | _, _, _ => "bad-op"
+      | _ => "bad-op"
+    | "goce" :: rest =>
+      match splitBar rest with
+      | [[c], ts, sched, pre] =>
+        match parseCalc c, ints ts, sched.mapM parseEStep, ints pre with
+        | some c, some ts, some sched, some pre =>
+          match gocVariants with
+          | some (.atomic, .atomic) =>
+            let s := eDrain (sched.foldl eHarnessStep (eInit c ts pre))
+            let can := gCanon (s.threads.map (·.famObj) ++ s.threads.map (eRegistered s))
+            let n := s.threads.length
+            let errs := s.threads.map fun t => if t.err then "1" else "0"
+            s!"T {" ".intercalate (can.take n)} R {" ".intercalate (can.drop n)} E {" ".intercalate errs} opened {s.sh.opened}"
+          | _ => "unknown-variant"
+        | _, _, _, _ => "bad-op"
       | _ => "bad-op"
     | "match" :: rest =>
       match splitBar rest with
